@@ -285,6 +285,14 @@ class Check:
                     viols.append(Violation(PROP, "C08.keys", ["C08.keys", "select_list_without_keys", ksig],
                                            {"query": qn, "rows": sum(gotn.values()), "groups": sum(wantn.values())}))
                     return viols
+                # ... and with a select list that needs no column of the entry at all
+                qc = "select count(*)" + fromc + wherec + " group by " + ", ".join(keys) + " into list"
+                rc_ = sb.run([qc], plan=p0)
+                ci_ = nk + aggs.index("count(*)")
+                if rc_.sim or rc_.status != 0 or collections.Counter(r_[0] for r_ in rc_.rows(1)) != collections.Counter(row[ci_] for row in ref_rows):
+                    viols.append(Violation(PROP, "C08.keys", ["C08.keys", "select_list_of_count_only", ksig],
+                                           {"query": qc, "rows": len(rc_.rows(1)), "groups": len(ref_rows), "outcome": rc_.summary()}))
+                    return viols
             # C08.restrict: each group equals the ungrouped aggregate query restricted to key = value
             if reference is not None:
                 done = 0
